@@ -141,7 +141,18 @@ def replay {α : Type} : Prog α → RState → Nat → Option α × RState
   | .call _ _, st, 0 => (none, { st with mismatches := st.mismatches ++ ["replay fuel exhausted"] })
   | .call q k, st, fuel + 1 =>
       match consume q st.recs with
-      | none => (none, { st with mismatches := st.mismatches ++ [s!"[{areaOf st q}] model issues a request the implementation did not: {reqText q}"] })
+      | none =>
+        -- a RolloutWaiting message names whichever unhappy child Go's map iteration met first: when the model's status
+        -- differs from the live one only in that text, the implementation rightly skipped the write the model wants
+        let skipped : Option J := match q with
+          | .api .updateStatus t body _ =>
+              (st.recs.reverse.find? (fun x => x.2 && x.1.verb == "get" && x.1.ok && x.1.group == t.group && x.1.resource == t.resource &&
+                  x.1.ns == t.ns && x.1.name == t.name)).bind (fun x =>
+                if ((normStatusBody body).getD "status").eqv ((normStatusBody x.1.resp).getD "status") then some x.1.resp else none)
+          | _ => none
+        match skipped with
+        | some live => replay (k (.obj live)) st fuel
+        | none => (none, { st with mismatches := st.mismatches ++ [s!"[{areaOf st q}] model issues a request the implementation did not: {reqText q}"] })
       | some (r, recs') =>
         let diffs : List String :=
           match q with
